@@ -13,6 +13,8 @@ Tie:    (A) model stream: evaluate_mapping on a generated mapping and on the sam
 """
 from __future__ import annotations
 
+import math
+
 import copy
 from fractions import Fraction
 
@@ -199,7 +201,11 @@ def mapper_stream(ctx: Ctx):
     drv = ctx.driver()
 
     def eq_scaled(a, b, k):  # b == a*k ?
-        v = drv.ask("C19", {"op": "eqScaled", "a": ML.to_int_vec([a])[0], "b": ML.to_int_vec([b])[0],
+        # exact integers on a common scale (the relation is scale-invariant); a fixed scale such as 2^20 would truncate
+        # latencies like 1.68e-7 (throughput × 1e9) to 0 and raise a false alarm
+        fa, fb = Fraction(a), Fraction(b)
+        D = math.lcm(fa.denominator, fb.denominator)
+        v = drv.ask("C19", {"op": "eqScaled", "a": int(fa * D), "b": int(fb * D),
                             "k_num": k.numerator, "k_den": k.denominator, "tol_num": 1, "tol_den": 10000})
         if v is not True and v is not False:
             raise RuntimeError(f"driver: {v}")
